@@ -336,6 +336,9 @@ func runC02(c *mon.Ctx) {
 					out = append(out, num()...)
 				case q < 7:
 					out = append(out, storage[r.IntN(len(storage))]...)
+				case q == 9 && r.IntN(3) == 0:
+					// a call of subroutine 0 or 1 (bias 107), local or global
+					out = append(out, byte(32+r.IntN(2)), []byte{10, 29}[r.IntN(2)])
 				default:
 					op := ops[r.IntN(len(ops))]
 					out = append(out, op...)
@@ -386,6 +389,46 @@ func runC02(c *mon.Ctx) {
 		}
 		if r.IntN(3) == 0 {
 			spec.gsubrs = [][]byte{prog(r.IntN(10))}
+		}
+		// call graphs with cycles: subroutines that call themselves or each
+		// other, the call being the last thing in the subroutine (no
+		// return), followed by return, or followed by more code
+		if j := k.Index - len(catalog); j >= 0 && j < 24 {
+			tail := [][]byte{{}, {11}, {139, 14}, {14}}[j%4]
+			call := func(idx int, global bool) []byte {
+				op := byte(10)
+				if global {
+					op = 29
+				}
+				return append([]byte{byte(32 + idx), op}, tail...)
+			}
+			switch j / 4 {
+			case 0: // a global subroutine calls itself
+				spec.gsubrs = [][]byte{call(0, true)}
+				spec.subrs = nil
+				spec.charstrings = [][]byte{{32, 29, 14}}
+			case 1: // a local subroutine calls itself
+				spec.subrs = [][]byte{call(0, false)}
+				spec.gsubrs = nil
+				spec.charstrings = [][]byte{{32, 10, 14}}
+			case 2: // local and global call each other
+				spec.subrs = [][]byte{call(0, true)}
+				spec.gsubrs = [][]byte{call(0, false)}
+				spec.charstrings = [][]byte{{32, 10, 14}}
+			case 3: // a cycle of two global subroutines
+				spec.gsubrs = [][]byte{call(1, true), call(0, true)}
+				spec.subrs = nil
+				spec.charstrings = [][]byte{{139, 139, 21, 32, 29, 14}}
+			case 4: // a cycle of three, entered after some drawing
+				spec.subrs = [][]byte{call(1, false), append([]byte{140, 140, 5}, call(0, true)...)}
+				spec.gsubrs = [][]byte{call(0, false)}
+				spec.charstrings = [][]byte{{139, 139, 21, 33, 10, 14}}
+			default: // the glyph itself ends in the call
+				spec.gsubrs = [][]byte{call(0, true)}
+				spec.subrs = nil
+				spec.charstrings = [][]byte{{32, 29}}
+			}
+			k.Class("charstrings:call-cycle")
 		}
 		b := c02cff(spec)
 		if c02run(k, dCFF, b, "token soup charstring") {
@@ -622,7 +665,7 @@ func runC02(c *mon.Ctx) {
 		"acc:glyf.Decode>SimpleGlyph.Decode", "acc:glyf.Decode>Glyphs.Encode",
 		"acc:gtab.Read(GSUB)>Encode", "acc:gtab.Read(GPOS)>Encode", "acc:gdef.Read>Encode", "acc:cff.Read>Write",
 		"fonts:cff-in-sfnt:accepted", "font:glyf", "font:cff", "font:cff-cid", "cff:cid-keyed", "cff:simple",
-		"truncate:exhaustive", "truncate:sampled", "fieldsweep:seeds", "fonts:cross-table:cmap-vs-glyph-count", "fonts:cross-table:glyph-counts", "fonts:seed-table", "charstrings:catalog", "charstrings:accepted", "charstrings:rejected")
+		"truncate:exhaustive", "truncate:sampled", "fieldsweep:seeds", "fonts:cross-table:cmap-vs-glyph-count", "fonts:cross-table:glyph-counts", "fonts:seed-table", "charstrings:catalog", "charstrings:call-cycle", "charstrings:accepted", "charstrings:rejected")
 	for _, a := range c02amps {
 		c.Require("amplifier:" + a.name)
 	}
